@@ -8,9 +8,12 @@ import atexit, fcntl, hashlib, json, os, re, shutil, subprocess, sys, tempfile, 
 
 VERIF = os.path.dirname(os.path.dirname(os.path.abspath(__file__)))
 REPO = os.environ.get("VERIF_REPO", "/repo")
-LEAN = os.path.join(VERIF, "lean")
-HARNESS = os.path.join(VERIF, "harness")
-WORKROOT = os.path.join(VERIF, ".work")
+LEAN_SRC = os.path.join(VERIF, "lean")
+HARNESS_SRC = os.path.join(VERIF, "harness")
+WORKROOT = os.environ.get("VERIF_WORKROOT", os.path.join(VERIF, ".work"))
+# Against a scratch worktree (VERIF_REPO != /repo: mutation trials) nothing shared is touched:
+# the Lean tree (with its build output) is copied into the run's work dir, evidence/replays go there too.
+SCRATCH = os.path.realpath(REPO) != "/repo"
 ALLOWED_AXIOMS = {"propext", "Classical.choice", "Quot.sound"}
 FORBIDDEN = re.compile(r"\b(sorry|admit|native_decide|bv_decide|implemented_by)\b|^\s*axiom\s|\bunsafe\s|maxHeartbeats\s+0\b")
 
@@ -47,7 +50,16 @@ class Ctx:
         self.t0 = time.time()
         os.makedirs(WORKROOT, exist_ok=True)
         self.work = tempfile.mkdtemp(prefix="%s-" % prop, dir=WORKROOT)
-        atexit.register(lambda: shutil.rmtree(self.work, ignore_errors=True))
+        if not os.environ.get("VERIF_KEEP_WORK"):
+            atexit.register(lambda: shutil.rmtree(self.work, ignore_errors=True))
+        self.lean = LEAN_SRC
+        self.outdir = VERIF
+        if SCRATCH:
+            self.lean = os.path.join(self.work, "lean")
+            sh(["cp", "-a", LEAN_SRC, self.lean], check=True)
+            self.outdir = os.environ.get("VERIF_OUT", self.work)
+        self.harness = os.path.join(self.work, "harness")
+        self._harness_ready = False
         self.obligations = []          # (name, ok, detail)
         self.violations = []           # dict(kind, key, what, input, expected, observed, obligation)
         self.known_hits = []
@@ -61,13 +73,25 @@ class Ctx:
 
     # ---------------------------------------------------------------- go
     def go_prepare(self):
-        shutil.copyfile(os.path.join(REPO, "go.sum"), os.path.join(HARNESS, "go.sum"))
+        """Private copy of the harness module whose go.mod points at the repo under test."""
+        if self._harness_ready:
+            return
+        shutil.copytree(HARNESS_SRC, self.harness, ignore=shutil.ignore_patterns("go.sum"))
+        gm = open(os.path.join(HARNESS_SRC, "go.mod")).read()
+        gm = re.sub(r"(replace github.com/cloudwego/thriftgo => )\S+", lambda m: m.group(1) + os.path.realpath(REPO), gm)
+        open(os.path.join(self.harness, "go.mod"), "w").write(gm)
+        shutil.copyfile(os.path.join(REPO, "go.sum"), os.path.join(self.harness, "go.sum"))
+        extra = os.path.join(HARNESS_SRC, "go.sum.extra")
+        if os.path.exists(extra):
+            with open(os.path.join(self.harness, "go.sum"), "a") as f:
+                f.write(open(extra).read())
+        self._harness_ready = True
 
     def go_build(self, name, tags="verif"):
         """Build harness/cmd/<name> against /repo's working tree. Returns path or None (tie broken)."""
         self.go_prepare()
         out = os.path.join(self.work, name)
-        rc, log = sh(["go", "build", "-tags", tags, "-o", out, "./cmd/" + name], cwd=HARNESS, timeout=900)
+        rc, log = sh(["go", "build", "-tags", tags, "-o", out, "./cmd/" + name], cwd=self.harness, timeout=900)
         if rc != 0:
             self.obligation("harness-build:" + name, False, log[-3000:])
             return None
@@ -82,12 +106,14 @@ class Ctx:
 
     # ---------------------------------------------------------------- lean
     def lake_lock(self):
+        if SCRATCH:
+            return open(os.path.join(self.work, "lake.lock"), "w")
         f = open(os.path.join(WORKROOT, "lake.lock"), "w")
         fcntl.flock(f, fcntl.LOCK_EX)
         return f
 
     def write_generated(self, name, text):
-        p = os.path.join(LEAN, "ThriftVerif", "Generated", name + ".lean")
+        p = os.path.join(self.lean, "ThriftVerif", "Generated", name + ".lean")
         old = open(p).read() if os.path.exists(p) else None
         if old != text:
             with open(p, "w") as f:
@@ -100,7 +126,7 @@ class Ctx:
         try:
             cmd = ["lake", "build"] + list(targets)
             self.checker_cmds.append("cd lean && " + " ".join(cmd))
-            rc, log = sh(cmd, cwd=LEAN, timeout=3000)
+            rc, log = sh(cmd, cwd=self.lean, timeout=3000)
         finally:
             lk.close()
         ok = rc == 0
@@ -117,7 +143,7 @@ class Ctx:
         try:
             cmd = ["lake", "env", "lean", path]
             self.checker_cmds.append("cd lean && " + " ".join(cmd))
-            rc, out = sh(cmd, cwd=LEAN, timeout=1800)
+            rc, out = sh(cmd, cwd=self.lean, timeout=1800)
         finally:
             lk.close()
         thms = {}
@@ -137,11 +163,11 @@ class Ctx:
                     self.obligation("theorem:" + t, False, "missing from audit output")
         # source audit
         bad = []
-        for root, _, files in os.walk(os.path.join(LEAN, "ThriftVerif")):
+        for root, _, files in os.walk(os.path.join(self.lean, "ThriftVerif")):
             for fn in files:
                 if fn.endswith(".lean"):
                     bad += forbidden_in(os.path.join(root, fn))
-        for root, _, files in os.walk(os.path.join(LEAN, "Driver")):
+        for root, _, files in os.walk(os.path.join(self.lean, "Driver")):
             for fn in files:
                 if fn.endswith(".lean"):
                     bad += forbidden_in(os.path.join(root, fn))
@@ -153,21 +179,23 @@ class Ctx:
         try:
             cmd = ["lake", "env", "leanchecker"] + list(modules)
             self.checker_cmds.append("cd lean && " + " ".join(cmd))
-            rc, out = sh(cmd, cwd=LEAN, timeout=3000)
+            rc, out = sh(cmd, cwd=self.lean, timeout=3000)
         finally:
             lk.close()
         self.obligation("leanchecker:" + ",".join(modules), rc == 0, out[-2000:] if rc else "")
         return rc == 0
 
-    def driver_path(self):
-        return os.path.join(LEAN, ".lake", "build", "bin", "tvdriver")
+    def driver_path(self, exe):
+        return os.path.join(self.lean, ".lake", "build", "bin", exe)
 
-    def run_model(self, suite, ops_path, out_path=None, extra_args=()):
+    def run_model(self, exe, ops_path, out_path=None, extra_args=()):
+        """Pipe ops to the compiled model driver `exe` (a lean_exe target, e.g. tv_c20)."""
+        suite = exe + ("-" + "-".join(extra_args) if extra_args else "")
         out_path = out_path or os.path.join(self.work, "model-%s.txt" % suite)
         with open(ops_path) as fi, open(out_path, "w") as fo:
-            p = subprocess.run([self.driver_path(), suite] + list(extra_args), stdin=fi, stdout=fo, stderr=subprocess.PIPE, text=True, timeout=3000)
+            p = subprocess.run([self.driver_path(exe)] + list(extra_args), stdin=fi, stdout=fo, stderr=subprocess.PIPE, text=True, timeout=3000)
         if p.returncode != 0:
-            raise MachineryError("tvdriver %s failed: %s" % (suite, p.stderr[-2000:]))
+            raise MachineryError("%s failed: %s" % (suite, p.stderr[-2000:]))
         return out_path
 
     # ---------------------------------------------------------------- verdict pieces
@@ -255,9 +283,9 @@ class Ctx:
         return 1 if nviol else 0
 
     def write_replay(self, v):
-        os.makedirs(os.path.join(VERIF, "replays"), exist_ok=True)
+        os.makedirs(os.path.join(self.outdir, "replays"), exist_ok=True)
         h = sha(json.dumps(v, sort_keys=True, default=str))[:12]
-        path = os.path.join(VERIF, "replays", "%s-%s.json" % (self.prop, h))
+        path = os.path.join(self.outdir, "replays", "%s-%s.json" % (self.prop, h))
         doc = dict(property=self.prop, seed=self.seed, tier=self.tier)
         doc.update(v)
         with open(path, "w") as f:
@@ -284,11 +312,11 @@ class Ctx:
         ev = dict(property_id=self.prop, tier=self.tier if self.tier in ("quick", "thorough") else "quick",
                   seed=self.seed, level=level, coverage=cov, assumptions=self.assumptions,
                   wall_s=round(time.time() - self.t0, 2), violations=nviol)
-        os.makedirs(os.path.join(VERIF, "evidence"), exist_ok=True)
-        tmp = os.path.join(VERIF, "evidence", ".%s.json.tmp" % self.prop)
+        os.makedirs(os.path.join(self.outdir, "evidence"), exist_ok=True)
+        tmp = os.path.join(self.outdir, "evidence", ".%s.json.tmp" % self.prop)
         with open(tmp, "w") as f:
             json.dump(ev, f, indent=1, default=str)
-        os.replace(tmp, os.path.join(VERIF, "evidence", "%s.json" % self.prop))
+        os.replace(tmp, os.path.join(self.outdir, "evidence", "%s.json" % self.prop))
 
 
 def forbidden_in(path):
@@ -301,7 +329,7 @@ def forbidden_in(path):
         line = re.sub(r"--.*$", "", line)
         line = re.sub(r'"(\\.|[^"\\])*"', '""', line)
         if FORBIDDEN.search(line):
-            bad.append("%s:%d: %s" % (os.path.relpath(path, VERIF), i, line.strip()[:80]))
+            bad.append("%s:%d: %s" % (path, i, line.strip()[:80]))
     return bad
 
 
